@@ -57,6 +57,149 @@ def known_funcs() -> set:
 
 FuncT = (ast.FunctionDef, ast.AsyncFunctionDef)
 LoopT = (ast.For, ast.AsyncFor, ast.While)
+_SIGS = None
+
+
+def known_sigs() -> dict:
+    global _SIGS
+    if _SIGS is None:
+        try:
+            with open(os.path.join(HERE, "known_sigs.json")) as fp:
+                _SIGS = {k: set(v) for k, v in json.load(fp).items()}
+        except FileNotFoundError:
+            _SIGS = {}
+    return _SIGS
+
+
+def _own_nodes_of(fn):
+    todo = list(ast.iter_child_nodes(fn))
+    while todo:
+        n = todo.pop(0)
+        if isinstance(n, (ast.FunctionDef, ast.AsyncFunctionDef, ast.Lambda, ast.ClassDef)):
+            continue
+        yield n
+        todo[0:0] = list(ast.iter_child_nodes(n))
+
+
+def local_fingerprints(fn) -> list:
+    """[(name, fingerprint)] in order of first binding, for the local variables of fn (parameters, global/nonlocal names and
+    comprehension variables excluded).  The fingerprint is the sorted list of the variable's binding sites, each rendered with every
+    *local* name replaced by `_` - it does not change when locals are renamed consistently."""
+    params = {a.arg for a in fn.args.args + fn.args.kwonlyargs + fn.args.posonlyargs}
+    if fn.args.vararg:
+        params.add(fn.args.vararg.arg)
+    if fn.args.kwarg:
+        params.add(fn.args.kwarg.arg)
+    shared = set()
+    stores = []
+    for n in _own_nodes_of(fn):
+        if isinstance(n, (ast.Global, ast.Nonlocal)):
+            shared.update(n.names)
+    comp_names = set()
+    for n in _own_nodes_of(fn):
+        if isinstance(n, ast.comprehension):
+            for x in ast.walk(n.target):
+                if isinstance(x, ast.Name):
+                    comp_names.add(x.id)
+    order = []
+    sites: dict = {}
+
+    def add(name, text):
+        if name in params or name in shared:
+            return
+        if name not in sites:
+            sites[name] = []
+            order.append(name)
+        sites[name].append(text)
+
+    locals_all = set()
+    for n in _own_nodes_of(fn):
+        if isinstance(n, ast.Name) and isinstance(n.ctx, ast.Store) and n.id not in params and n.id not in shared:
+            locals_all.add(n.id)
+        if isinstance(n, ast.ExceptHandler) and n.name:
+            locals_all.add(n.name)
+
+    class Blank(ast.NodeTransformer):
+        def visit_Name(self, node):
+            if node.id in locals_all:
+                return ast.copy_location(ast.Name(id="_", ctx=node.ctx), node)
+            return node
+
+    def render(e):
+        try:
+            return ast.unparse(Blank().visit(copy.deepcopy(e)))
+        except Exception:
+            return type(e).__name__
+
+    def targets(t, path=""):
+        if isinstance(t, ast.Name):
+            yield t.id, path
+        elif isinstance(t, (ast.Tuple, ast.List)):
+            for i, e in enumerate(t.elts):
+                yield from targets(e, f"{path}[{i}]")
+        elif isinstance(t, ast.Starred):
+            yield from targets(t.value, path + "*")
+
+    for n in _own_nodes_of(fn):
+        if isinstance(n, ast.Assign):
+            for t in n.targets:
+                for name, path in targets(t):
+                    add(name, f"assign{path}:{render(n.value)}")
+        elif isinstance(n, ast.AnnAssign) and n.value is not None:
+            for name, path in targets(n.target):
+                add(name, f"assign{path}:{render(n.value)}")
+        elif isinstance(n, ast.AugAssign):
+            for name, path in targets(n.target):
+                add(name, f"aug:{type(n.op).__name__}:{render(n.value)}")
+        elif isinstance(n, (ast.For, ast.AsyncFor)):
+            for name, path in targets(n.target):
+                add(name, f"for{path}:{render(n.iter)}")
+        elif isinstance(n, (ast.With, ast.AsyncWith)):
+            for it in n.items:
+                if it.optional_vars is not None:
+                    for name, path in targets(it.optional_vars):
+                        add(name, f"with{path}:{render(it.context_expr)}")
+        elif isinstance(n, ast.ExceptHandler) and n.name:
+            add(n.name, f"except:{render(n.type) if n.type is not None else ''}")
+        elif isinstance(n, ast.NamedExpr):
+            for name, path in targets(n.target):
+                add(name, f"walrus:{render(n.value)}")
+    return [(name, "|".join(sorted(sites[name]))) for name in order if name not in comp_names or True]
+
+
+_LOCALS = None
+
+
+def known_locals() -> dict:
+    global _LOCALS
+    if _LOCALS is None:
+        try:
+            with open(os.path.join(HERE, "known_locals.json")) as fp:
+                _LOCALS = json.load(fp)
+        except FileNotFoundError:
+            _LOCALS = {}
+    return _LOCALS
+
+
+def fingerprint(fn) -> set:
+    """token set of a function body: called names, attributes, short string constants, parameter names - enough to recognise
+    an audited function under a new name, robust against edits of a few statements"""
+    out = set()
+    for a in fn.args.args + fn.args.kwonlyargs:
+        out.add("p:" + a.arg)
+    out.add("async" if isinstance(fn, ast.AsyncFunctionDef) else "sync")
+    for n in ast.walk(fn):
+        if isinstance(n, ast.Call):
+            f = n.func
+            if isinstance(f, ast.Attribute):
+                out.add("c:" + f.attr)
+            elif isinstance(f, ast.Name):
+                out.add("c:" + f.id)
+        elif isinstance(n, ast.Attribute):
+            out.add("a:" + n.attr)
+        elif isinstance(n, ast.Constant) and isinstance(n.value, str) and 0 < len(n.value) <= 40:
+            out.add("s:" + n.value)
+    return out
 
 
 def _dbg(*a):
@@ -1397,8 +1540,227 @@ class ProgramNormalizer:
         return None
 
     # ---- driver ------------------------------------------------------------
+    def rename_back(self):
+        """N0: an audited function that was *renamed* (same scope, recognisably the same body) gets its audited name back,
+        definition and every reference in the package - the rules address functions by name."""
+        sigs = known_sigs()
+        if not sigs:
+            return 0
+        renames = {}
+        for mod, tree in self.trees.items():
+            scopes = [(None, self.funcs[mod])] + [(cn, {s.name: s for s in cd.body if isinstance(s, FuncT)}) for cn, cd in self.classes[mod].items()]
+            for cname, defs in scopes:
+                prefix = f"{mod}:{cname + '.' if cname else ''}"
+                missing = []
+                for k in sigs:
+                    if k.startswith(prefix) and "." not in k[len(prefix):] and k[len(prefix):] not in defs:
+                        nm = k[len(prefix):]
+                        if cname is None and nm in self.imports.get(mod, {}):
+                            continue  # moved and imported back
+                        missing.append(k)
+                fresh = {n: d for n, d in defs.items() if f"{prefix}{n}" not in self.known and not (n.startswith("__") and n.endswith("__"))}
+                if not missing or not fresh:
+                    continue
+                fps = {n: fingerprint(d) for n, d in fresh.items()}
+                for k in missing:
+                    want = sigs[k]
+                    scored = sorted(((len(want & fp) / max(1, len(want | fp)), n) for n, fp in fps.items()), reverse=True)
+                    if not scored:
+                        continue
+                    best, name = scored[0]
+                    second = scored[1][0] if len(scored) > 1 else 0.0
+                    old = k[len(prefix):]
+                    if best >= 0.6 and best - second >= 0.15 and name not in renames and old not in renames.values():
+                        renames[name] = old
+                        fps.pop(name)
+        # only unambiguous renames: the new name must not also be an audited name, and must not be used for something else
+        all_known_names = {k.split(":")[1].split(".")[-1] for k in self.known}
+        renames = {n: o for n, o in renames.items() if n not in all_known_names}
+        if not renames:
+            return 0
+        n_changed = 0
+        for mod, tree in self.trees.items():
+            for node in ast.walk(tree):
+                if isinstance(node, FuncT) and node.name in renames:
+                    node.name = renames[node.name]
+                    n_changed += 1
+                elif isinstance(node, ast.Attribute) and node.attr in renames:
+                    node.attr = renames[node.attr]
+                elif isinstance(node, ast.Name) and node.id in renames:
+                    node.id = renames[node.id]
+                elif isinstance(node, ast.alias) and node.name in renames:
+                    node.name = renames[node.name]
+                elif isinstance(node, ast.keyword) and node.arg in renames:
+                    pass
+        if n_changed:
+            self.renamed = dict(renames)
+            self._index()
+        return n_changed
+
+    def rename_locals_back(self, only=None):
+        """N0b: inside an audited function, a local variable whose binding sites are exactly those of an audited local that no
+        longer exists under its audited name gets that name back (consistent renames of locals are undone)."""
+        table = known_locals()
+        if not table:
+            return 0
+        n_total = 0
+        for mod, tree in self.trees.items():
+            if only is not None and mod not in only:
+                continue
+            defs = []
+
+            def scan(node, prefix):
+                for ch in ast.iter_child_nodes(node):
+                    if isinstance(ch, FuncT):
+                        defs.append((f"{mod}:{prefix}{ch.name}", ch))
+                        scan(ch, prefix + ch.name + ".")
+                    elif isinstance(ch, ast.ClassDef):
+                        scan(ch, prefix + ch.name + ".")
+                    else:
+                        scan(ch, prefix)
+
+            scan(tree, "")
+            for q, fn in defs:
+                want = table.get(q)
+                if not want:
+                    continue
+                # cheap pre-check on names only: nothing to do unless an audited local is gone and an unknown one appeared
+                quick = {x.id for x in _own_nodes_of(fn) if isinstance(x, ast.Name) and isinstance(x.ctx, ast.Store)} | {x.name for x in _own_nodes_of(fn) if isinstance(x, ast.ExceptHandler) and x.name}
+                wn = {w for w, _ in want}
+                if not (wn - quick) or not (quick - wn):
+                    continue
+                have = local_fingerprints(fn)
+                have_names = {n for n, _ in have}
+                # every name that occurs in the function at all (attribute names excluded): a rename target must be free
+                used = {x.id for x in ast.walk(fn) if isinstance(x, ast.Name)} | {a.arg for a in fn.args.args + fn.args.kwonlyargs}
+                missing = [(n, fp) for n, fp in want if n not in have_names and n not in used]
+                fresh = [(n, fp) for n, fp in have if n not in {w for w, _ in want}]
+                if not missing or not fresh:
+                    continue
+                ren = {}
+                by_fp_missing: dict = {}
+                for n, fp in missing:
+                    by_fp_missing.setdefault(fp, []).append(n)
+                by_fp_fresh: dict = {}
+                for n, fp in fresh:
+                    by_fp_fresh.setdefault(fp, []).append(n)
+                for fp, olds in by_fp_missing.items():
+                    news = by_fp_fresh.get(fp, [])
+                    if len(news) == len(olds):
+                        for o, nw in zip(olds, news):  # same order of first binding
+                            ren[nw] = o
+                if not ren:
+                    continue
+
+                class R(ast.NodeTransformer):
+                    def visit_Name(self, node):
+                        if node.id in ren:
+                            node.id = ren[node.id]
+                        return node
+
+                    def visit_ExceptHandler(self, node):
+                        self.generic_visit(node)
+                        if node.name in ren:
+                            node.name = ren[node.name]
+                        return node
+
+                    def _skip(self, node):
+                        return node
+
+                    visit_Lambda = _skip
+                    visit_ClassDef = _skip
+
+                    def visit_FunctionDef(self, node):
+                        # nested functions may read the renamed closure variables
+                        self.generic_visit(node)
+                        return node
+
+                    visit_AsyncFunctionDef = visit_FunctionDef
+
+                fn.body = [R().visit(st) for st in fn.body]
+                n_total += len(ren)
+        return n_total
+
+    def fold_new_temporaries(self, only=None):
+        """N0c: inside an audited function, a *new* local (not among the audited locals) that is bound once by a plain assignment and
+        read once, in the head expression of the very next statement, is substituted back (`t = f(x); if t:` -> `if f(x):`)."""
+        table = known_locals()
+        n_total = 0
+        for mod, tree in self.trees.items():
+            if only is not None and mod not in only:
+                continue
+            defs = []
+
+            def scan(node, prefix):
+                for ch in ast.iter_child_nodes(node):
+                    if isinstance(ch, FuncT):
+                        defs.append((f"{mod}:{prefix}{ch.name}", ch))
+                        scan(ch, prefix + ch.name + ".")
+                    elif isinstance(ch, ast.ClassDef):
+                        scan(ch, prefix + ch.name + ".")
+                    else:
+                        scan(ch, prefix)
+
+            scan(tree, "")
+            for q, fn in defs:
+                if q not in self.known:
+                    continue
+                audited = {n for n, _ in table.get(q, [])}
+                counts_store: dict = {}
+                counts_load: dict = {}
+                for n in ast.walk(fn):
+                    if isinstance(n, ast.Name):
+                        d = counts_store if isinstance(n.ctx, ast.Store) else counts_load
+                        d[n.id] = d.get(n.id, 0) + 1
+                params = {a.arg for a in fn.args.args + fn.args.kwonlyargs}
+
+                def fix(block):
+                    nonlocal n_total
+                    out = []
+                    i = 0
+                    while i < len(block):
+                        s = block[i]
+                        nxt = block[i + 1] if i + 1 < len(block) else None
+                        if (isinstance(s, ast.Assign) and len(s.targets) == 1 and isinstance(s.targets[0], ast.Name) and nxt is not None):
+                            t = s.targets[0].id
+                            if t not in audited and t not in params and counts_store.get(t) == 1 and counts_load.get(t) == 1:
+                                head_field = None
+                                if isinstance(nxt, (ast.If, ast.While)):
+                                    head_field = "test"
+                                elif isinstance(nxt, (ast.Assign, ast.AugAssign, ast.Return, ast.Expr, ast.AnnAssign)) and getattr(nxt, "value", None) is not None:
+                                    head_field = "value"
+                                elif isinstance(nxt, (ast.For, ast.AsyncFor)):
+                                    head_field = "iter"
+                                if head_field and not isinstance(nxt, ast.While):
+                                    head = getattr(nxt, head_field)
+                                    uses = [x for x in _first_evaluated(head) if isinstance(x, ast.Name) and x.id == t]
+                                    if len(uses) == 1:
+                                        setattr(nxt, head_field, _replace_node(head, uses[0], s.value))
+                                        ast.fix_missing_locations(nxt)
+                                        n_total += 1
+                                        i += 1
+                                        continue
+                        if not isinstance(s, FuncT + (ast.ClassDef,)):
+                            for field in ("body", "orelse", "finalbody"):
+                                sub = getattr(s, field, None)
+                                if isinstance(sub, list) and sub and isinstance(sub[0], ast.stmt):
+                                    setattr(s, field, fix(sub))
+                            if isinstance(s, ast.Try):
+                                for h in s.handlers:
+                                    h.body = fix(h.body)
+                        out.append(s)
+                        i += 1
+                    return out
+
+                fn.body = fix(fn.body)
+        return n_total
+
     def run(self):
         focus = self.focus
+        if focus is None:
+            self.rename_back()
+        self.rename_locals_back(only=focus)
+        self.fold_new_temporaries(only=focus)
         for mod, tree in self.trees.items():
             if focus is not None and mod not in focus:
                 continue
